@@ -51,7 +51,7 @@ def run_oracles(groups, repo, work, seed, only=None, iters=None):
         env["VERIF_ITERS"] = str(iters)
     if only:
         env["VERIF_ONLY"] = only
-    cmd = ["cargo", "test", "--offline", "--lib", "--quiet", "verif_replay_", "--", "--nocapture", "--test-threads", "8"]
+    cmd = ["cargo", "test", "--offline", "--lib", "--quiet", "verif_replay_", "--", "--nocapture", "--test-threads", "1"]
     try:
         p = subprocess.run(cmd, cwd=scratch, env=env, capture_output=True, text=True, timeout=1500)
         out = p.stdout + "\n" + p.stderr
@@ -60,7 +60,7 @@ def run_oracles(groups, repo, work, seed, only=None, iters=None):
     shutil.rmtree(scratch, ignore_errors=True)
     fails = []
     for ln in out.split("\n"):
-        m = re.match(r"^REPLAY-FAIL (\{.*\})\s*$", ln.strip())
+        m = re.search(r"REPLAY-FAIL (\{.*\})\s*$", ln.strip())
         if m:
             try:
                 fails.append(json.loads(m.group(1)))
@@ -90,7 +90,9 @@ def write_violation(pid, n, kind, unit, f, repo, work, seed, cfg):
         mine = [x for x in fails if pid in x.get("props", [])]
         # prefer a failure of the same function
         fn = doc.get("function", "")
-        same = [x for x in mine if x.get("function") and x["function"].split("::")[-1] in fn] or mine
+        lab = doc.get("obligation", "") or doc.get("failed_obligation", "")
+        same = ([x for x in mine if x.get("clause") and x["clause"] in lab]
+                or [x for x in mine if x.get("function") and x["function"].split("::")[-1] in fn] or mine)
         if same:
             doc["counterexample"] = same[0]
             doc["replay"] = dict(kind="oracle-test", groups=groups, test=same[0].get("test"), seed=seed,
